@@ -596,6 +596,19 @@ def part(prop):
                     rep["lines"].append("VIOLATION property=%s replay=%s" % (prop, rp))
                     rep["lines"].append("  mirsmt kernel=%s overflow-checks=%s obligation violated: %s" % (v["kernel"], mode, v["obligation"]))
                     rep["lines"].append("  counterexample inputs: %s" % json.dumps(v["model"]))
+        # translator validation (concrete differential run of encoding vs real code, both profiles)
+        validated = {"into_range", "AnyVecRaw::reserve", "AnyVecRaw::reserve_exact", "AnyVecRaw::shrink_to", "Stack::build", "StackN::build"}
+        if any(sp.key in validated for sp in specs) and not rep["violations"]:
+            try:
+                from . import validate as VAL
+                vr = VAL.run(repo, Path(work) / "mirsmt", seed)
+                rep["coverage"]["translator_validation"] = {"inputs_compared_with_real_code": vr["compared"], "disagreements": vr["disagreements"][:10], "profiles": ["dev", "release"]}
+                if vr["disagreements"]:
+                    rep["inconclusive"] += 1
+                    rep["lines"].append("INCONCLUSIVE property=%s mirsmt translator validation: encoding and real code disagree on %d of %d concrete inputs (e.g. %s)" % (prop, len(vr["disagreements"]), vr["compared"], vr["disagreements"][0]))
+            except Exception as e:  # noqa
+                rep["inconclusive"] += 1
+                rep["lines"].append("INCONCLUSIVE property=%s mirsmt translator validation failed to run: %s" % (prop, str(e)[:300]))
         rep["coverage"]["solver_s"] = round(solver.time + (cross.time if cross else 0), 2)
         rep["coverage"]["queries"] = solver.queries + (cross.queries if cross else 0)
         rep["coverage"]["wall_s"] = round(time.time() - t0, 1)
